@@ -133,10 +133,16 @@ def concretise(abstract, rnd):
             # an operation that raises: replace-last on an empty bucket, or update / delete of a bucket that does not exist
             empties = [x for x in BUCKETS if exists[x] and count[x] == 0]
             absent = [x for x in BUCKETS if not exists[x]] or ["Z"]
-            if empties and rnd.random() < 0.6:
+            present = [x for x in BUCKETS if exists[x]]
+            if present and rnd.random() < 0.35:
+                ops.append({"op": "fail_upsert_unknown", "b": rnd.choice(present)})
+            elif empties and rnd.random() < 0.6:
                 ops.append({"op": "fail_replace_last", "b": rnd.choice(empties)})
             else:
                 ops.append({"op": rnd.choice(["fail_delete_bucket", "fail_update_bucket", "fail_lookup"]), "b": rnd.choice(absent)})
+            continue
+        if o == "upsert":
+            ops.append({"op": "upsert_known", "b": b, "k": a.get("n", 3)})
             continue
         if o == "learn":
             ops.append({"op": "learn", "b": b})
@@ -181,7 +187,7 @@ def concretise(abstract, rnd):
 def random_abstract(rnd):
     """second source of abstract behaviours (same vocabulary as AwDurable's Emit)"""
     out = []
-    mode = rnd.choice(["mixed", "trickle", "deletes", "bursts"])
+    mode = rnd.choice(["mixed", "trickle", "deletes", "bursts", "upserts"])
     for _ in range(rnd.randint(5, 18)):
         r = rnd.random()
         if mode == "trickle":
@@ -196,6 +202,14 @@ def random_abstract(rnd):
             else:
                 for _ in range(rnd.choice([1, 3, 20, 60, 66, 80])):
                     out.append({"op": "delete", "n": 1, "blind": True})
+        elif mode == "upserts":
+            if not out:
+                out.append({"op": "insert", "n": rnd.choice([3, 30])})
+                out.append({"op": "learn", "n": 0})
+            for _ in range(rnd.choice([1, 5, 25, 40])):
+                out.append({"op": "upsert", "n": rnd.choice([1, 2, 3])})
+            if r < 0.3:
+                out.append({"op": "insert", "n": rnd.choice([1, 30, 49])})
         elif mode == "bursts":
             out.append({"op": "insert", "n": rnd.choice([1, 2, 3, 30, 49, 50, 51, 70])})
             if r < 0.2:
@@ -383,6 +397,23 @@ class Runner:
                         for h, (i_, t_) in list(self.ids.items()):
                             if t_ == cand[0]:
                                 self.ids.pop(h)
+                elif o == "upsert_known":
+                    # bulk upsert (list insert of id-carrying events) of up to three events whose ids the caller knows; no read
+                    kn = self.bytag.get(b, {})
+                    lv = self.live.get(b, {})
+                    cand = sorted(t_ for t_ in kn if t_ in lv)[:op.get("k", 3)]
+                    evl = []
+                    for t_old in cand:
+                        e, t = self.ev()
+                        e.id = kn.pop(t_old)
+                        kn[t] = e.id
+                        w.append({"k": "rew", "b": b, "old": t_old, "t": t})
+                        for h, (i_, t_) in list(self.ids.items()):
+                            if t_ == t_old:
+                                self.ids[h] = (i_, t)
+                        evl.append(e)
+                    if evl:
+                        ds[b].insert(evl)
                 elif o == "delete_newest":
                     last = ds[b].get(1)
                     split_read(b)
@@ -397,8 +428,9 @@ class Runner:
                 elif o.startswith("fail_"):
                     try:
                         if o == "fail_replace_last":
-                            e, t = self.ev()
-                            ds[b].replace_last(e)
+                            if not self.live.get(b):        # only on a bucket the caller knows to be empty
+                                e, t = self.ev()
+                                ds[b].replace_last(e)
                             # a backend may also treat this as a no-op; it must not create an event
                         elif o == "fail_delete_bucket":
                             ds.delete_bucket(b)
